@@ -1,4 +1,6 @@
 //! Kademlia node Id or a lookup target
+#[cfg(mainline_verif)]
+use crate::verif::getrandom;
 use crc::{Crc, CRC_32_ISCSI};
 use serde::{Deserialize, Serialize};
 use std::convert::TryInto;
